@@ -5,17 +5,26 @@
 EXTENDS WfBase
 
 MsgId(t, i) == 100 * t + i
+(* "genter" opens a catch_panic frame like "enter", but its body owns a clean-up guard: whenever the frame is    *)
+(* left - by its return or by a panic unwinding through it - the guard runs catch_panic(|| 7) (a nested catcher  *)
+(* frame entered and left during the same step, possibly in the middle of unwinding) and the thread observes its *)
+(* result, "gok".  The nested frame leaves no trace: not in the level, not in the recorded message.               *)
+IsEnter(o) == o \in {"enter", "genter"}
+GOk == [k |-> "gok", m |-> 0]
+(* observations of the guards of the frames fs[lo..Len(fs)], innermost first *)
+RECURSIVE GuardObs(_, _, _)
+GuardObs(fs, lo, j) == IF j < lo THEN <<>> ELSE (IF fs[j].guard THEN <<GOk>> ELSE <<>>) \o GuardObs(fs, lo, j - 1)
 
 RECURSIVE MatchFrom(_, _, _)
 MatchFrom(s, j, depth) ==
-  IF s[j] = "enter" THEN MatchFrom(s, j + 1, depth + 1)
+  IF IsEnter(s[j]) THEN MatchFrom(s, j + 1, depth + 1)
   ELSE IF s[j] = "ret" THEN IF depth = 0 THEN j ELSE MatchFrom(s, j + 1, depth - 1)
   ELSE MatchFrom(s, j + 1, depth)
 
 WellBracketed(s) ==
   /\ \A j \in 1..Len(s) :
-       Cardinality({x \in 1..j : s[x] = "ret"}) <= Cardinality({x \in 1..j : s[x] = "enter"})
-  /\ Cardinality({x \in 1..Len(s) : s[x] = "ret"}) = Cardinality({x \in 1..Len(s) : s[x] = "enter"})
+       Cardinality({x \in 1..j : s[x] = "ret"}) <= Cardinality({x \in 1..j : IsEnter(s[x])})
+  /\ Cardinality({x \in 1..Len(s) : s[x] = "ret"}) = Cardinality({x \in 1..Len(s) : IsEnter(s[x])})
 
 CatchingIdx(fs) == {i \in 1..Len(fs) : fs[i].catching}
 
@@ -26,21 +35,21 @@ SeqRun(s, t, p, fs, en, b, ob, sn, lv) ==
            L == Cardinality(CatchingIdx(fs)) IN
        IF o = "enable" THEN SeqRun(s, t, p + 1, fs, TRUE, b, ob, sn, Append(lv, L))
        ELSE IF o = "disable" THEN SeqRun(s, t, p + 1, fs, FALSE, b, ob, sn, Append(lv, L))
-       ELSE IF o = "enter"
-            THEN SeqRun(s, t, p + 1, Append(fs, [catching |-> en, retpc |-> MatchFrom(s, p + 1, 0)]), en, b, ob, sn,
+       ELSE IF IsEnter(o)
+            THEN SeqRun(s, t, p + 1, Append(fs, [catching |-> en, retpc |-> MatchFrom(s, p + 1, 0), guard |-> (o = "genter")]), en, b, ob, sn,
                         Append(lv, L + (IF en THEN 1 ELSE 0)))
        ELSE IF o = "ret"
-            THEN SeqRun(s, t, p + 1, SubSeq(fs, 1, Len(fs) - 1), en, b, Append(ob, [k |-> "ok", m |-> 0]), sn,
+            THEN SeqRun(s, t, p + 1, SubSeq(fs, 1, Len(fs) - 1), en, b, (ob \o GuardObs(fs, Len(fs), Len(fs))) \o <<[k |-> "ok", m |-> 0]>>, sn,
                         Append(lv, L - (IF fs[Len(fs)].catching THEN 1 ELSE 0)))
        ELSE IF o = "bt" THEN SeqRun(s, t, p + 1, fs, en, b, Append(ob, [k |-> "bt", m |-> b]), sn, Append(lv, L))
        ELSE IF o = "panic"
             THEN LET m == MsgId(t, p)
                      C == CatchingIdx(fs)
                  IN IF C = {}
-                    THEN [obs |-> Append(ob, [k |-> "escaped", m |-> m]), sent |-> sn + 1, status |-> "escaped",
+                    THEN [obs |-> (ob \o GuardObs(fs, 1, Len(fs))) \o <<[k |-> "escaped", m |-> m]>>, sent |-> sn + 1, status |-> "escaped",
                           levels |-> Append(lv, 0)]
                     ELSE LET i == CHOOSE x \in C : \A y \in C : y <= x IN
-                         SeqRun(s, t, fs[i].retpc + 1, SubSeq(fs, 1, i - 1), en, m, Append(ob, [k |-> "err", m |-> m]), sn,
+                         SeqRun(s, t, fs[i].retpc + 1, SubSeq(fs, 1, i - 1), en, m, (ob \o GuardObs(fs, i, Len(fs))) \o <<[k |-> "err", m |-> m]>>, sn,
                                 Append(lv, L - 1))
        ELSE SeqRun(s, t, p + 1, fs, en, b, ob, sn, Append(lv, L))
 RunAlone(s, t) == SeqRun(s, t, 1, <<>>, FALSE, 0, <<>>, 0, <<>>)
